@@ -4,8 +4,9 @@ usage: eval_neutral.py <patch.diff> [Cxx ...]      -> one JSON line + human-read
 import concurrent.futures as cf
 import json, os, shutil, subprocess, sys, tempfile, time
 
+VERIF = os.path.dirname(os.path.dirname(os.path.abspath(__file__)))   # the tree this script belongs to
 patch = os.path.abspath(sys.argv[1])
-props = sys.argv[2:] or [c["property_id"] for c in json.load(open("/verif/MANIFEST.json"))["checks"]]
+props = sys.argv[2:] or [c["property_id"] for c in json.load(open(VERIF + "/MANIFEST.json"))["checks"]]
 d = tempfile.mkdtemp(prefix="neutral_")
 wt = d + "/wt"
 rec = {"patch": patch, "checks": {}}
@@ -24,7 +25,7 @@ try:
         t0 = time.time()
         # evidence of these runs must not overwrite the committed evidence: separate output directory
         e = dict(env, VERIF_EVIDENCE_DIR=d + "/evidence")
-        r = subprocess.run(["/verif/vcheck", p, "--tier", "quick"], cwd="/verif", env=e, capture_output=True, text=True)
+        r = subprocess.run([VERIF + "/vcheck", p, "--tier", "quick"], cwd=VERIF, env=e, capture_output=True, text=True)
         out = r.stdout + r.stderr
         lines = [l for l in out.splitlines() if l.startswith(("VIOLATION", "  obligation", "UNDECIDED", "SUMMARY", "CHECKER"))]
         return p, {"exit": r.returncode, "seconds": round(time.time() - t0, 1), "lines": lines[:10]}
@@ -34,7 +35,7 @@ try:
 finally:
     subprocess.run(["git", "-C", "/repo", "worktree", "remove", "--force", wt], capture_output=True)
     shutil.rmtree(d, ignore_errors=True)
-    subprocess.run(["git", "checkout", "--", "evidence"], cwd="/verif", capture_output=True)
+    subprocess.run(["git", "checkout", "--", "evidence"], cwd=VERIF, capture_output=True)
 alarms = [p for p, r in rec["checks"].items() if r["exit"] != 0 or any(l.startswith("VIOLATION") for l in r["lines"])]
 und = {p: [l for l in r["lines"] if l.startswith("UNDECIDED")] for p, r in rec["checks"].items()}
 und = {p: v for p, v in und.items() if v}
